@@ -12,7 +12,8 @@ the blank nodes allocated by the update executor.
 Python AST (JSON): term = ["I",n] | ["P",n] | ["N",k,l] | ["Q",term,term,term]
 tterm = ["V",v] | ["C",term] | ["B",l] | ["A"] | ["T",tterm,tterm,tterm]   (T: a quoted-triple template)
 tgraph = None | ["V",v] | ["C",term] | ["X"];  tquad = [s,p,o,g];  pt = ["V",v] | ["C",term] | ["Q",pt,pt,pt]
-block = [scope, [[pt,pt,pt]..]] with scope = None | ["C",term] | ["V",v];  where = [[block..]..] (UNION of joins)
+block = [scope, [[pt,pt,pt]..]] with scope = None | ["C",term] | ["V",v] | ["VALS",v,[term..]];  where = [[block..]..] (UNION of joins;
+the solutions form a sequence: UNION concatenates, VALUES repeats rows - duplicates are kept)
 op = {"form": ID|DD|IW|DW|DIW|DWS, "del": [tquad..], "ins": [tquad..], "where": where}
 request = {"op": op|None, "entry": xu|su|hu|vol|ast, "decl": [n..], "kind": ok|alias|select|trail|second|unclosed|keyword}
 case = {"init": [[term,term,term,term|None]..], "graphs": [term..], "seed": [term..], "reqs": [request..]}
@@ -147,7 +148,14 @@ def cwhere(w):
     for join in w:
         blocks = []
         for scope, tps in join:
-            sc = "SDefault" if scope is None else ("(SVar %d)" % scope[1] if scope[0] == "V" else "(SConst %s)" % cterm(scope[1]))
+            if scope is None:
+                sc = "SDefault"
+            elif scope[0] == "V":
+                sc = "(SVar %d)" % scope[1]
+            elif scope[0] == "VALS":
+                sc = "(SValues %d %s)" % (scope[1], clist(cterm(t) for t in scope[2]))
+            else:
+                sc = "(SConst %s)" % cterm(scope[1])
             blocks.append("(%s, %s)" % (sc, clist("(%s, %s, %s)" % (cpt(a), cpt(b), cpt(c)) for a, b, c in tps)))
         alts.append(clist(blocks))
     return clist(alts)
@@ -275,6 +283,8 @@ class Renderer:
             if scope is None:
                 if body:
                     parts.append(body + " .")
+            elif scope[0] == "VALS":
+                parts.append("VALUES ?x%d { %s }" % (scope[1], " ".join(self.term(t, "o") for t in scope[2])))
             elif scope[0] == "V":
                 parts.append("GRAPH ?x%d { %s }" % (scope[1], body))
             else:
@@ -570,12 +580,32 @@ def gen_where(rng):
             if scope is None and ntp == 0:
                 ntp = 1
             blocks.append([scope, [[pt("s", vs), pt("p", vs), pt("o", vs)] for _ in range(ntp)]])
+        if rng.random() < 0.10:
+            # VALUES over one variable; rows are drawn with replacement, so repeated rows (duplicate solutions) are common
+            rows = [rng.choice(SUBJ[:2] + [P(1), I(8)]) for _ in range(rng.choice([2, 2, 3]))]
+            blocks.insert(rng.randrange(len(blocks) + 1), [["VALS", rng.choice(vs), rows], []])
         return blocks
+
+    def overlapping(j):
+        """a second UNION branch binding the same variables: the same join, or the same with one constant predicate or
+        one graph scope changed (same triple in two graphs) - identical solutions in both branches are likely"""
+        j2 = copy.deepcopy(j)
+        k2 = rng.random()
+        consts = [(b, tp) for b in j2 for tp in b[1] if tp[1][0] == "C"]
+        scoped = [b for b in j2 if b[0] is not None and b[0][0] == "C"]
+        if k2 < 0.4 and consts:
+            rng.choice(consts)[1][1] = ["C", rng.choice(PRED)]
+        elif k2 < 0.6 and scoped:
+            rng.choice(scoped)[0] = ["C", rng.choice(GNAMES)]
+        return j2
     k = rng.random()
     if k < 0.06:
         return [[]]                       # the empty group: one empty solution
-    if k < 0.16:
-        return [join(), join()]           # UNION (duplicates possible)
+    if k < 0.12:
+        return [join(), join()]           # UNION of unrelated branches
+    if k < 0.22:
+        j = join()
+        return [j, overlapping(j)] + ([overlapping(j)] if rng.random() < 0.2 else [])   # UNION with duplicate solutions
     return [join()]
 
 
@@ -591,7 +621,7 @@ def where_vars(w):
     vs = []
     for j in w:
         for scope, tps in j:
-            if scope is not None and scope[0] == "V":
+            if scope is not None and scope[0] in ("V", "VALS"):
                 vs.append(scope[1])
             for tp in tps:
                 for p in tp:
@@ -640,6 +670,15 @@ def gen_op(rng, kw_a=False):
         return {"form": "DWS", "del": dl, "ins": [], "where": short_where(dl)}
     w = gen_where(rng)
     vs = where_vars(w)
+    dup = len(w) > 1 or any(b[0] is not None and b[0][0] == "VALS" for j in w for b in j)
+    if dup and vs and rng.random() < 0.5:
+        # one blank node per solution, also per repeated solution
+        ins = [[["B", 1], ["C", rng.choice(PRED)], ["V", rng.choice(vs)], None]]
+        if rng.random() < 0.4:
+            ins.append([["V", rng.choice(vs)], ["C", rng.choice(PRED)], ["B", rng.choice([1, 2])], rng.choice([None, ["C", rng.choice(GNAMES)]])])
+        form = rng.choice(["IW", "IW", "DIW"])
+        dl = [gen_template(rng, vs, False, kw_a)] if form == "DIW" else []
+        return {"form": form, "del": dl, "ins": ins, "where": w}
     if k < 0.50:
         # self-referential shapes: templates are the WHERE patterns themselves, with positions permuted for INSERT
         def as_tt(p):
@@ -754,7 +793,7 @@ def evaluate(ctx, binpath, cases, stream, report=True):
     verdicts = []
     failures = []
     st = {"cases": len(cases), "steps": 0, "accepted": 0, "rejected": 0, "changed": 0,
-          "impl_model_mismatches": 0, "spec_violations": 0, "bnode_steps": 0, "quoted_triple_steps": 0, "keyword_a_steps": 0,
+          "impl_model_mismatches": 0, "spec_violations": 0, "bnode_steps": 0, "quoted_triple_steps": 0, "keyword_a_steps": 0, "multi_branch_or_values_with_bnode_insertions": 0,
           "iso_budget_hit": 0}
     forms, kinds, entries = {}, {}, {}
     for c, (drv, args, creqs), im, mo in zip(cases, preps, impl, model):
@@ -818,6 +857,9 @@ def evaluate(ctx, binpath, cases, stream, report=True):
                 st["bnode_steps"] += 1
             if any(isinstance(x, tuple) for q in iq for x in q):
                 st["quoted_triple_steps"] += 1
+            if mcode == 0 and mins > 0 and req.get("op") and any(tq_has_bnode(q) for q in req["op"]["ins"]) and (
+                    len(req["op"]["where"]) > 1 or any(b[0] is not None and b[0][0] == "VALS" for j in req["op"]["where"] for b in j)):
+                st["multi_branch_or_values_with_bnode_insertions"] += 1
             if mcode == 0 and req.get("op") and any(kwa_in(q[0], False) or kwa_in(q[1], True) or kwa_in(q[2], False)
                                                     for q in req["op"]["del"] + req["op"]["ins"]):
                 st["keyword_a_steps"] += 1
@@ -954,6 +996,9 @@ def catalogue():
         mk("DIW", [[V(1), V(2), V(3), None]], [[V(1), V(2), V(3), None]], w_all),                  # delete and re-insert the same quads
         mk("DIW", [[V(1), V(2), V(3), V(4)]], [[V(1), V(2), V(3), None]], w_g),                    # move to the default graph
         mk("DIW", [[V(1), C(I(5)), V(3), None]], [[V(1), C(I(6)), B(1), None]], w_p5),
+        mk("IW", [], [[B(1), C(I(7)), V(3), None]], w_p5 + w_p5),                                   # UNION of twice the same branch: duplicate solutions
+        mk("IW", [], [[B(1), C(I(6)), V(1), None], [V(1), C(I(6)), B(2), C(I(9))]],
+           [[[["VALS", 1, [I(1), I(1), I(2)]], []]]]),                                              # VALUES with a repeated row
         mk("DWS", [[V(1), C(I(5)), V(3), None]], []),
         mk("DWS", [[V(1), V(2), V(3), V(4)], [V(1), C(I(5)), V(5), None]], []),
         mk("IW", [], [[["T", V(1), C(I(5)), V(3)], C(I(7)), B(1), None], [V(3), C(I(7)), ["T", V(3), C(I(6)), B(1)], None]], w_p5),  # quoted templates
